@@ -251,6 +251,21 @@ async fn feed(kind: Kind, bytes: Vec<u8>, scratch: PathBuf, account: AccountId) 
                     "req:patch" => PatchRequest::decode(b).await.is_ok(),
                     "resp:patch" => PatchResponse::decode(b).await.is_ok(),
                     "resp:status" => SyncStatus::decode(b).await.is_ok(),
+                    // pairing relay packets: decoded as the receive loop of an
+                    // endpoint does (protobuf decode, then `is_handshake()` is the
+                    // first thing asked of every received packet) and as the
+                    // relay server does (split off the recipient key)
+                    "relay:packet" => {
+                        use sos_protocol::{ProtoMessage, RelayPacket};
+                        match RelayPacket::decode_proto(b).await {
+                            Ok(p) => {
+                                let _ = p.is_handshake();
+                                true
+                            }
+                            Err(_) => false,
+                        }
+                    }
+                    "relay:prefixed" => sos_protocol::RelayPacket::decode_split(b.to_vec()).is_ok(),
                     _ => CreateSet::decode(b).await.is_ok(),
                 };
                 if ok { "value" } else { "error" }
@@ -397,6 +412,27 @@ pub async fn execute(plan: Plan, dir: &Path) -> RunOutcome {
         };
         if seen.insert(tag) {
             artefacts.push((Kind::Wire(tag), b.clone()));
+        }
+    }
+    // pairing relay packets (the pairing protocol itself is not simulated;
+    // its wire decoding is)
+    {
+        use sos_protocol::{ProtoMessage, RelayHeader, RelayPacket, RelayPayload};
+        let mk = |handshake: bool| RelayPacket {
+            header: Some(RelayHeader { to_public_key: vec![7u8; 32], from_public_key: vec![9u8; 32] }),
+            payload: Some(if handshake {
+                RelayPayload::new_handshake(48, vec![0x5a; 48])
+            } else {
+                RelayPayload::new_transport(80, vec![0xa5; 80])
+            }),
+        };
+        for hs in [true, false] {
+            if let Ok(b) = mk(hs).encode_proto().await {
+                artefacts.push((Kind::Wire("relay:packet"), b));
+            }
+            if let Ok(b) = mk(hs).encode_prefixed().await {
+                artefacts.push((Kind::Wire("relay:prefixed"), b));
+            }
         }
     }
     if let Ok(b) = std::fs::read(&archive) {
